@@ -3,7 +3,8 @@
 import json, os
 V = os.path.dirname(os.path.dirname(os.path.abspath(__file__)))
 import glob
-checks = {os.path.basename(f)[:-5]: json.load(open(f)) for f in glob.glob(os.path.join(V, "checks", "C*.json"))}
+ready = set(open(os.path.join(V, "checks", "READY")).read().split())
+checks = {os.path.basename(f)[:-5]: json.load(open(f)) for f in glob.glob(os.path.join(V, "checks", "C*.json")) if os.path.basename(f)[:-5] in ready}
 props = [json.loads(l) for l in open(os.path.join(V, "properties.jsonl"))]
 m = {
  "version": 1,
